@@ -134,6 +134,7 @@ def observe_object(flav, net, opts, tid, rng, mode="iterate", order=None, forced
     end["exact"], _ = U.exact_pairs(flav, bp, net, refmsgs, U.END_TOL if damped else etol)
     snap = net.exact and not damped
     real = net.kind in ("pos", "signed")
+    tmargs = []
     try:
         with warnings.catch_warnings():
             warnings.simplefilter("ignore")
@@ -184,26 +185,26 @@ def observe_object(flav, net, opts, tid, rng, mode="iterate", order=None, forced
                 else:
                     end["dqimarg"] = dq
             if "tmarg" in want and hyper:
-                obs, dq = [], 0
+                dq = 0
                 pos = {U.pos_of_tensor(t): tidq for tidq, t in bp.tn.tensor_map.items()}
                 outer = set(net.outer())
                 for i in range(len(net.tensors)):
                     dang = any(x in outer for x in net.tensors[i][0])
-                    o = {"t": i + 1, "exc": "", "off": False, "p": [], "dangling": dang}
+                    o = {"ev": "tmarg", "tid": tid, "t": i + 1, "exc": "", "dangling": dang, "flav": flav}
                     try:
                         p = np.asarray(compute_tensor_marginal(bp.tn, pos[i], msgs))
                     except Exception as ex:  # noqa
                         o["exc"] = type(ex).__name__
-                        obs.append(o)
+                        if net.exact:
+                            tmargs.append(o)
+                        else:
+                            end.setdefault("tmarg_exc", []).append(o["exc"])
                         continue
                     if snap and real:
                         o.update(U.obs_ratvec(p))
-                        obs.append(o)
+                        tmargs.append(o)
                     else:
                         dq = max(dq, qdiff(p, ref.tensor_marginal(i), 1e-6 if damped else 1e-8))
-                if (snap and real) or any(o["exc"] for o in obs):
-                    end["tmarg"] = [o for o in obs if (snap and real) or o["exc"]]
-                    # one record per failing tensor keeps known-finding matching narrow
                 if not (snap and real):
                     end["dqtmarg"] = dq
             if "fmsg" in want and norm == 1 and gk in ("dense", "hyper") and snap and real:
@@ -221,6 +222,8 @@ def observe_object(flav, net, opts, tid, rng, mode="iterate", order=None, forced
     except Exception as ex:  # noqa
         end["exc"] = type(ex).__name__
     recs.append(end)
+    if not end["exc"]:
+        recs += tmargs
     return recs
 
 
@@ -471,7 +474,7 @@ def sample_records(seed, n, tid0):
         net = gen_net(rng, flav, "pos" if norm == 1 else r.choice(["pos", "signed", "cplx"]), r.choice([3, 4, 5]))
         rec = base_record("sample", tid0 + k, flav, net)
         rec["fn"] = fn
-        rec["depth"] = U.Ref(net, norm) and max([1] + [len(p) for p in _paths(net)])
+        rec["depth"] = max([1] + [len(p) for p in _paths(net)])
         try:
             tn = net.to_quimb()
             sd = r.randrange(1 << 20)
@@ -590,13 +593,7 @@ def replay_behaviours(behs, seed, tid0):
                           "conv": bool(h["conv"])})
         for h in hist[1:]:
             forced.append([name(u) if flav == "D1BP" else [name(u[0]), name(u[1])] for u in h["pops"]])
-        order = None
-        if flav == "D1BP" and forced and forced[0]:
-            # first sweep: touched = oset(tensor_map), popped from the end
-            first = [int(a[1:]) - 1 for a in forced[0]]
-            order = list(reversed(first)) + [i for i in range(n) if i not in first]
-            order = [i for i in range(n) if i not in first] + list(reversed(first))
-        rr = observe_object(flav, net, opts, tid0 + k, rng, mode="iterate", order=order, forced=forced, model=model,
+        rr = observe_object(flav, net, opts, tid0 + k, rng, mode="iterate", forced=forced, model=model,
                             want=("value",))
         for x in rr:
             x["replay"] = True
@@ -676,19 +673,6 @@ def run(ctx):
     fails += ctx.validate("C14_Trace", "Trace.cfg", erecs + grecs + srecs + qrecs, name="entry-points",
                           ntraces=len(erecs) + len(grecs) + len(srecs) + len(qrecs))
 
-    # model drift (S->C): the observed exact sets / touched sets against the model's
-    drift = 0
-    for rec in rrecs:
-        m = rec.get("model")
-        if m is None or rec.get("exc"):
-            continue
-        ex = {tuple(x) for x in rec.get("exact", [])}
-        if not {tuple(x) for x in m["exact"]} <= ex:
-            drift += 1
-    ctx.extra["replay_steps_below_model"] = drift
-    if drift:
-        ctx.notes.append("%d replayed steps where the model predicts more exact messages than observed" % drift)
-
     ctx.clauses.update(["InDomain", "Returns", "MessagesMatchGraph", "Wave", "Stable", "Converges", "ExactAtFixpoint",
                         "IterBound", "ValueExact", "IndexMarginalExact", "TensorMarginalExact", "MessagesExact",
                         "DenotationPreserved", "SampleProbExact", "ScheduleIndependent",
@@ -708,5 +692,7 @@ def run(ctx):
         rec = f["record"]
         if len(str(rec)) > 6000:
             f["record"] = {k: v for k, v in rec.items() if k not in ("msgs", "model")}
+    for f in notes[:10]:
+        ctx.notes.append("model-drift at %s n=%s tid=%s" % (f["record"].get("ev"), f["record"].get("n"), f["record"].get("tid")))
+    ctx.extra["model_drift_steps"] = len(notes)
     ctx.judge([f for f in fails if not f["clause"].startswith("NOTE:")])
-    ctx.extra["notes"] = len(notes)
